@@ -205,3 +205,29 @@ Theorem C06_bounds_skip_free : forall generic refs e j tr,
   tr = TrDebug /\ generic j = true /\ nth_error (field_attrs (e_fields e)) j = Some ANone.
 Proof. exact Proofs.generate_bounds_skip_free. Qed.
 Print Assumptions C06_bounds_skip_free.
+
+(* ------------------------------------------------------------------ the impl's where clause *)
+
+(** every inferred bound of every struct / variant is in the emitted impl's where clause, whatever the
+    user's own where clause is (none, or any number of predicates) *)
+Theorem C06_where_keeps_inferred : forall n bss u bs b,
+  nth_error bss u = Some bs -> In b bs -> In (WField (u, b)) (impl_where_clause n (enum_bounds bss)).
+Proof. exact Proofs.where_keeps_inferred. Qed.
+Print Assumptions C06_where_keeps_inferred.
+
+(** the user's predicates come first, in order; the rest is exactly the inferred bounds, in order *)
+Theorem C06_where_keeps_user : forall n inferred,
+  firstn n (impl_where_clause n inferred) = map WUser (seq 0 n) /\
+  skipn n (impl_where_clause n inferred) = map WField inferred.
+Proof. exact Proofs.where_keeps_user. Qed.
+Print Assumptions C06_where_keeps_user.
+
+(** hence: a plainly printed field whose type mentions a type parameter is bounded by Debug in the impl *)
+Theorem C06_printed_generic_field_bounded : forall n generic refs es u e j,
+  nth_error es u = Some e ->
+  nth_error (field_attrs (e_fields e)) j = Some ANone -> generic u j = true ->
+  In (WField (u, (j, TrDebug)))
+     (impl_where_clause n (enum_bounds (map (fun ue => generate_bounds (generic (fst ue)) (refs (fst ue)) (snd ue))
+                                            (combine (seq 0 (length es)) es)))).
+Proof. exact Proofs.printed_generic_field_bounded. Qed.
+Print Assumptions C06_printed_generic_field_bounded.
